@@ -21,9 +21,18 @@ assumptions("C01", [
 KEYS = ("values_from", "values_to", "index_from", "index_to", "residuals", "residual_index")
 
 
-def _compare(det, got, want, where):
+def rounding_unstable(sig):
+    """F20 class: the four-point rule evaluated with rounded double differences and in exact rational arithmetic
+    disagree on this signal, i.e. some |x - y| <= |u - v| decision is a tie only because a difference was rounded."""
+    tps = ref.turning_points(sig)
+    return ref.fourpoint(tps, exact=True) != ref.fourpoint(tps)
+
+
+def _compare(det, got, want, where, ctx=None, sig=None):
     for k in KEYS:
         if k in want and got[k] != want[k]:
+            if ctx is not None and det == "threepoint" and sig is not None and rounding_unstable(sig) and ctx.known("F20"):
+                return
             raise Violation("%s: %s differs %s: chunked %r, one piece %r" % (det, k, where, got[k], want[k]),
                             bucket="%s:%s" % (det, k))
 
@@ -68,14 +77,14 @@ def check_chunked(sig, cuts, ctx, detectors=_rf.DETECTORS, prefixes=True):
             if prefixes and (k % stride == 0 or k == n_chunks - 1) and k < n_chunks - 1:
                 upto = sum(lens)
                 _compare(det, _rf.snapshot(det, d), _rf.snapshot(det, _rf.run_whole(det, sig[:upto])),
-                         "after chunk %d (prefix of %d samples)" % (k, upto))
+                         "after chunk %d (prefix of %d samples)" % (k, upto), ctx, sig)
                 if det != "fkm":
                     # the bookkeeping is queried between feeds, too (a history of look-ups and feeds)
                     check_bookkeeping(det, d, chunks[:k + 1], sig[:upto])
 
         d = _rf.run_chunks(det, chunks, on_step=on_step)
         got = _rf.snapshot(det, d)
-        _compare(det, got, whole, "at the end")
+        _compare(det, got, whole, "at the end", ctx, sig)
 
         if det == "fkm":
             continue
@@ -176,7 +185,7 @@ def feed_history(case, ctx):
         def on_step(k, d, det=det, acc=acc):
             acc.extend(chunks[k])
             _compare(det, _rf.snapshot(det, d), _rf.snapshot(det, _rf.run_whole(det, acc)),
-                     "after feed #%d" % k)
+                     "after feed #%d" % k, ctx, sig)
             if det != "fkm":
                 check_bookkeeping(det, d, chunks[:k + 1], acc)
         d = _rf.run_chunks(det, chunks, on_step=on_step)
